@@ -39,6 +39,55 @@ def load_restores_only_saved_children(chk: Check, rule: str) -> None:
     chk.floor(f'{rule}:composite-loaders', n, 3)
 
 
+def child_selector_agreement(chk: Check, rule: str = 'SIB-child-selector') -> None:
+    """The nested steppers restore their child from the instruction the running stepper created it from (shared with C07: a bundle taken inside an ``elif_`` body
+    has to load, and load into the same branch)."""
+    prog = chk.prog
+    # child selection: the selector used on load equals the one used when the running stepper creates that child
+    for sname in ('_BlockStepper', '_IfStepper', '_WhileStepper'):
+        c = prog.cls(f'workchains.{sname}')
+        creates: Set[str] = set()
+        for f in c.emethods.values():
+            for x in calls_in_func(f, 'create_stepper'):
+                from ..rules import Resolver as _Rcs
+                r = norm(_Rcs(f).expand(x.func.value)) if isinstance(x.func, ast.Attribute) else ''   # (``chosen = self._ifs[self._pos]`` ; ``chosen.body.create_stepper``)
+                if f.name == '__init__':
+                    # position is 0 at construction: [0] is [self._pos]
+                    pos0 = any(isinstance(n, (ast.Assign, ast.AnnAssign)) and norm(n.targets[0] if isinstance(n, ast.Assign) else n.target) == 'self._pos'
+                               and n.value is not None and norm(n.value) == '0' for n in ast.walk(f.node))
+                    if pos0:
+                        r = r.replace('[0]', '[self._pos]')
+                creates.add(r)
+        lf = prog.view(c.vmethods['load_instance_state'])
+
+        def through_hook(txt: str, c=c) -> str:
+            """``self._child_instruction()`` -- a per-class hook of a shared base that returns one expression -- is that expression for THIS class"""
+            import re as _re
+            from ..model import accessor_value as _av
+            m_ = _re.fullmatch(r'self\.(\w+)\(\)', txt)
+            g_ = c.lookup(m_.group(1)) if m_ else None
+            v_ = _av(g_) if g_ is not None else None
+            return norm(v_) if v_ is not None else txt
+        creates = {through_hook(t) for t in creates}
+        recreates = {through_hook(receiver_text(x)) for x in calls_in_func(lf, 'recreate_stepper')}
+        chk.ob(rule, lf, bool(recreates) and recreates <= creates,
+               f'{sname} restores its child from {sorted(recreates)}; the running stepper creates children from {sorted(creates)}: ' +
+               ('same selector' if recreates <= creates else 'a restored run would continue in a different instruction'), kind='selector-agreement')
+        # the restored position is available before it is used
+        cfg = cfg_of(lf)
+        sup = [n for n in cfg.nodes if n.expr() is not None and any(isinstance(x, ast.Call) and isinstance(x.func, ast.Attribute) and x.func.attr == 'load_instance_state'
+                                                                     and isinstance(x.func.value, ast.Call) and unparse(x.func.value.func) == 'super' for x in walk_shallow(n.expr()))]
+        uses = [n for n in cfg.nodes if n.expr() is not None and 'self._pos' in norm(n.expr())]
+        if uses:
+            ok = bool(sup) and all(cfg.must_pass(cfg.entry, [u], lambda m: m in sup, edge_ok=no_exc) for u in uses)
+            chk.ob(rule, lf, ok, 'the position is restored (super().load_instance_state) before it selects the child', kind='pos-restored-first')
+        # the workchain passed on is the one this stepper belongs to
+        for x in calls_in_func(lf, 'recreate_stepper'):
+            chk.ob(rule, lf, len(x.args) == 2 and norm(x.args[1]) == 'self._workchain' and norm(x.args[0]) != '', 'the child is recreated for the same workchain',
+                   node=x, kind='same-workchain')
+
+
+
 def run(chk: Check) -> None:
     prog = chk.prog
     ctx = chk.ctx
@@ -148,48 +197,7 @@ def run(chk: Check) -> None:
             rcs = [x for x in calls_in_func(rc, 'recreate_from')]
             ok = len(rcs) == 1 and norm(rcs[0].args[0]) == rc.params[1]
             chk.ob('SIB-create-recreate', rc, ok, 'the stepper is recreated from the saved state it is given', kind='from-given-state')
-    # child selection: the selector used on load equals the one used when the running stepper creates that child
-    for sname in ('_BlockStepper', '_IfStepper', '_WhileStepper'):
-        c = prog.cls(f'workchains.{sname}')
-        creates: Set[str] = set()
-        for f in c.emethods.values():
-            for x in calls_in_func(f, 'create_stepper'):
-                from ..rules import Resolver as _Rcs
-                r = norm(_Rcs(f).expand(x.func.value)) if isinstance(x.func, ast.Attribute) else ''   # (``chosen = self._ifs[self._pos]`` ; ``chosen.body.create_stepper``)
-                if f.name == '__init__':
-                    # position is 0 at construction: [0] is [self._pos]
-                    pos0 = any(isinstance(n, (ast.Assign, ast.AnnAssign)) and norm(n.targets[0] if isinstance(n, ast.Assign) else n.target) == 'self._pos'
-                               and n.value is not None and norm(n.value) == '0' for n in ast.walk(f.node))
-                    if pos0:
-                        r = r.replace('[0]', '[self._pos]')
-                creates.add(r)
-        lf = prog.view(c.vmethods['load_instance_state'])
-
-        def through_hook(txt: str, c=c) -> str:
-            """``self._child_instruction()`` -- a per-class hook of a shared base that returns one expression -- is that expression for THIS class"""
-            import re as _re
-            from ..model import accessor_value as _av
-            m_ = _re.fullmatch(r'self\.(\w+)\(\)', txt)
-            g_ = c.lookup(m_.group(1)) if m_ else None
-            v_ = _av(g_) if g_ is not None else None
-            return norm(v_) if v_ is not None else txt
-        creates = {through_hook(t) for t in creates}
-        recreates = {through_hook(receiver_text(x)) for x in calls_in_func(lf, 'recreate_stepper')}
-        chk.ob('SIB-child-selector', lf, bool(recreates) and recreates <= creates,
-               f'{sname} restores its child from {sorted(recreates)}; the running stepper creates children from {sorted(creates)}: ' +
-               ('same selector' if recreates <= creates else 'a restored run would continue in a different instruction'), kind='selector-agreement')
-        # the restored position is available before it is used
-        cfg = cfg_of(lf)
-        sup = [n for n in cfg.nodes if n.expr() is not None and any(isinstance(x, ast.Call) and isinstance(x.func, ast.Attribute) and x.func.attr == 'load_instance_state'
-                                                                     and isinstance(x.func.value, ast.Call) and unparse(x.func.value.func) == 'super' for x in walk_shallow(n.expr()))]
-        uses = [n for n in cfg.nodes if n.expr() is not None and 'self._pos' in norm(n.expr())]
-        if uses:
-            ok = bool(sup) and all(cfg.must_pass(cfg.entry, [u], lambda m: m in sup, edge_ok=no_exc) for u in uses)
-            chk.ob('SIB-child-selector', lf, ok, 'the position is restored (super().load_instance_state) before it selects the child', kind='pos-restored-first')
-        # the workchain passed on is the one this stepper belongs to
-        for x in calls_in_func(lf, 'recreate_stepper'):
-            chk.ob('SIB-child-selector', lf, len(x.args) == 2 and norm(x.args[1]) == 'self._workchain' and norm(x.args[0]) != '', 'the child is recreated for the same workchain',
-                   node=x, kind='same-workchain')
+    child_selector_agreement(chk)
 
     # 3. load-context agreement
     supplied = context_kwargs(prog)
